@@ -25,7 +25,10 @@ ILL = ['amount > "x"', 'contains(5)', '-description == 1', 'len(amount) > 0', 'n
        'txn.bogus == 1', 'nosuchfn(1)', 'abs("x") > 1', 'description.nosuch()', 'amount.lower() == "x"',
        'month % "x" == 0', '1 / description > 0', 'orders.n > 1', 'min() > 1', 'extract(5) == ""', 'date > "not a date"',
        'anyof(1, 2)', 'startswith(amount, "1")', 'normalized(amount)', 'lim[0] == 1', '"a" < 1', 'sum(r.item for r in orders) > 1',
-       'all(r.nope for r in orders)', 'len(r for r in orders) > 0', 'round("x") > 0', 'trim(1, 2) == ""']
+       'all(r.nope for r in orders)', 'len(r for r in orders) > 0', 'round("x") > 0', 'trim(1, 2) == ""',
+       # the whole expression is a bare generator / comprehension: it fails only when the caller materialises it
+       '(d for d in amount)', '(r.n for r in month)', '(r.nope for r in orders)', '[d for d in amount]', '(x for x in unknownvar)',
+       '(r.n + "x" for r in orders)', '(r for r in orders if r.nope)', '(a for a in orders for b in a.n)']
 
 GOOD_BEFORE = '[Before]\nmatch: contains("ALFA")\ncategory: Food\ntags: b4\n'
 GOOD_AFTER = '[After]\nmatch: contains("STORE")\ncategory: Shop\nsubcategory: Misc\ntags: aft\n'
@@ -156,8 +159,11 @@ def confused(rnd, depth):
         return rnd.choice(['amount', 'description', 'date', 'month', 'orders', 'nolines', 'field.kind', 'field.nope', 'lim', 'big',
                            '5', '0', '"x"', '""', 'true', 'None', 'unknownvar', 'txn.location', 'orders[0]', '[1, 2]' if False else '[r.n for r in orders]'])
     d = depth - 1
-    k = rnd.randrange(12)
+    k = rnd.randrange(13)
     a, b = confused(rnd, d), confused(rnd, d)
+    if k == 12:         # a bare generator / comprehension, possibly the whole expression
+        s = '%s for r in %s%s' % (a.replace('amount', 'r.n'), b, rnd.choice(['', '', ' if r.n > 1', ' if r.nope']))
+        return rnd.choice(['(%s)', '[%s]']) % s
     if k == 0:
         return '(%s %s %s)' % (a, rnd.choice('+-*/%'), b)
     if k == 1:
